@@ -19,8 +19,12 @@ func (s *Store) maxSizeEnforcer(maxSize int64) {
 			if !ok {
 				return
 			}
-			// Add message to all.
+			// Add message to all, unless it was removed before it got here.
 			m := md.msg
+			if m.gone {
+				close(md.done)
+				continue
+			}
 			el := all.PushBack(m)
 			m.el = el
 			curSize += int64(m.Size())
@@ -28,6 +32,11 @@ func (s *Store) maxSizeEnforcer(maxSize int64) {
 				// Remove oldest message.
 				verifhook.Yield("mem.enforcer.evict")
 				el := all.Front()
+				if el == nil {
+					// Everything listed is gone; the bytes still counted belong to messages
+					// whose removal is on its way here.
+					break
+				}
 				all.Remove(el)
 				m := el.Value.(*Message)
 				if s.removeMessage(m.mailbox, m.id) != nil {
@@ -41,6 +50,13 @@ func (s *Store) maxSizeEnforcer(maxSize int64) {
 			}
 			// Remove message from all.
 			m := md.msg
+			if m.el == nil {
+				// A delivery becomes visible (and removable) before it is registered here:
+				// remember that this one is gone already.
+				m.gone = true
+				close(md.done)
+				continue
+			}
 			el := all.Remove(m.el)
 			if el != nil {
 				curSize -= int64(m.Size())
